@@ -169,7 +169,7 @@ func startEnv() (*scriptedTransport, *dnsScript, func()) {
 // ---- resolution workload ----
 
 var wkOutcomes = []string{"absent", "404", "500", "203", "oversized-with-length", "oversized-no-length", "malformed", "no-m.server", "empty-m.server", "to-name", "to-name-port", "to-ipv4", "to-ipv4-port", "to-ipv6", "to-ipv6-port", "to-invalid", "wrong-type"}
-var srvOutcomes = []string{"none", "fed", "legacy", "both", "three", "same-target-two-ports", "same-record-twice", "trailing-dot", "root-target", "one-malformed-target", "fed-servfail", "legacy-servfail"}
+var srvOutcomes = []string{"none", "fed", "legacy", "both", "three", "same-target-two-ports", "same-record-twice", "trailing-dot", "root-target", "one-malformed-target", "legacy-one-malformed-target", "fed-servfail", "legacy-servfail"}
 
 func mkSRV(target string, port uint16) dns.SRV {
 	return dns.SRV{Target: dns.Fqdn(target), Port: port, Priority: 10, Weight: 5}
@@ -214,6 +214,10 @@ func srvFor(outcome, name string) (srvScript, ref.SRVAnswer) {
 		// SRV answer (Go's resolver hands the valid records back together with an error about the other)
 		sc.fed = []dns.SRV{mkSRV("fed."+name, 8443), {Target: `bad\032host.` + dns.Fqdn(name), Port: 8446, Priority: 20, Weight: 5}}
 		ans.Fed = []ref.SRVRecord{{Target: "fed." + name, Port: 8443}}
+	case "legacy-one-malformed-target":
+		// the same under the deprecated service name, with no _matrix-fed record at all
+		sc.legacy = []dns.SRV{mkSRV("legacy."+name, 8444), {Target: `bad\032host.` + dns.Fqdn(name), Port: 8446, Priority: 20, Weight: 5}}
+		ans.Legacy = []ref.SRVRecord{{Target: "legacy." + name, Port: 8444}}
 	case "fed-servfail":
 		sc.fedFail, ans.FedError = true, true
 		sc.legacy, ans.Legacy = leg, []ref.SRVRecord{{Target: "legacy." + name, Port: 8444}}
@@ -760,6 +764,73 @@ func c16WellKnownUnderPolicy(c *mon.Ctx, st *scriptedTransport, ds *dnsScript) {
 	}
 }
 
+// c16BothLists: a client may carry lists of its own AND dial through a DNS cache that carries lists. Both are
+// "configured": a connection is made only to addresses that neither forbids - on the well-known step as on the others.
+func c16BothLists(c *mon.Ctx, ds *dnsScript) {
+	if c.Shard != 0 {
+		return
+	}
+	lg := &listenerLog{accepts: map[string]int{}}
+	var addrs []string
+	for _, a := range []string{"127.0.0.1:443", "127.0.0.1:8448"} {
+		l, err := startListener(a, lg)
+		if err != nil {
+			c.Note("both-lists scenario: no listener on %s: %v", a, err)
+			continue
+		}
+		defer l.Close()
+		addrs = append(addrs, a)
+	}
+	if len(addrs) == 0 {
+		return
+	}
+	all := []string{"0.0.0.0/0", "::/0"}
+	for i, cfg := range []struct {
+		cacheAllow, cacheDeny, ownAllow, ownDeny []string
+		forbids                                  string
+	}{
+		{all, []string{"127.0.0.1/32"}, all, nil, "cache"},
+		{all, nil, all, []string{"127.0.0.0/8"}, "client"},
+		{[]string{"127.0.0.0/8"}, nil, []string{"127.0.0.0/8"}, nil, ""},
+		{[]string{"10.0.0.0/8"}, nil, all, nil, "cache"},
+		{all, nil, []string{"10.0.0.0/8"}, nil, "client"},
+		{all, []string{"127.0.0.0/8"}, []string{"127.0.0.0/8"}, nil, "cache"},
+	} {
+		name := fmt.Sprintf("both-lists%d.example", i)
+		c.Case("policy:both-lists", map[string]any{"cache_allow": cfg.cacheAllow, "cache_deny": cfg.cacheDeny, "client_allow": cfg.ownAllow, "client_deny": cfg.ownDeny, "name": name, "addresses": []string{"127.0.0.1"}}, func() {
+			c.Nontrivial("both-lists|" + name)
+			ds.mu.Lock()
+			ds.a[name] = []string{"127.0.0.1"}
+			ds.mu.Unlock()
+			count := func() int {
+				lg.mu.Lock()
+				defer lg.mu.Unlock()
+				n := 0
+				for _, a := range addrs {
+					n += lg.accepts[a]
+				}
+				return n
+			}
+			before := count()
+			cl := fclient.NewClient(fclient.WithDNSCache(fclient.NewDNSCache(8, time.Minute, cfg.cacheAllow, cfg.cacheDeny)), fclient.WithAllowDenyNetworks(cfg.ownAllow, cfg.ownDeny),
+				fclient.WithSkipVerify(true), fclient.WithWellKnownSRVLookups(true), fclient.WithTimeout(3*time.Second))
+			ctx, cancel := context.WithTimeout(context.Background(), 3*time.Second)
+			_, _ = cl.GetServerKeys(ctx, spec.ServerName(name))
+			cancel()
+			time.Sleep(30 * time.Millisecond)
+			made := count() > before
+			c.Count("both_lists_requests")
+			switch {
+			case made && cfg.forbids != "":
+				c.Failf("policy:both-lists:connection-to-address-forbidden-by-"+cfg.forbids+"-lists", "client with a DNS cache (allow=%v deny=%v) and lists of its own (allow=%v deny=%v): a request for %s (127.0.0.1) made a TCP connection to 127.0.0.1 (listeners %v), which the %s's lists forbid",
+					cfg.cacheAllow, cfg.cacheDeny, cfg.ownAllow, cfg.ownDeny, name, addrs, cfg.forbids)
+			case !made && cfg.forbids == "":
+				c.Failf("policy:both-lists:no-connection-although-both-permit", "client with a DNS cache (allow=%v) and lists of its own (allow=%v): a request for %s (127.0.0.1) made no connection to %v", cfg.cacheAllow, cfg.ownAllow, name, addrs)
+			}
+		})
+	}
+}
+
 func policyClass(allow, deny []string) string {
 	bad := func(l []string) string {
 		for i, e := range l {
@@ -791,6 +862,7 @@ func runC16(c *mon.Ctx) {
 	c16WellKnown(c, st)
 	c16Policy(c, ds)
 	c16WellKnownUnderPolicy(c, st, ds)
+	c16BothLists(c, ds)
 	c16ClientSequences(c)
 }
 
